@@ -15,7 +15,7 @@ ENGINES := table merge sorter fileset corrupt sched leak wfault
 ENGINE_SRC := $(foreach e,$(ENGINES),$(wildcard engines/$(e).cc))
 HAVE := $(foreach e,$(ENGINES),$(if $(wildcard engines/$(e).cc),-DHAVE_$(shell echo $(e) | tr a-z A-Z)))
 $(shell mkdir -p $(B); echo "$(HAVE)" | cmp -s - $(B)/have.flags || echo "$(HAVE)" > $(B)/have.flags)
-HARNESS_CC := engines/main.cc engines/common.cc engines/stubs.cc engines/tablelib.cc engines/sorterlib.cc model/mtblfmt.cc $(ENGINE_SRC)
+HARNESS_CC := engines/main.cc engines/common.cc engines/stubs.cc engines/tablelib.cc engines/sorterlib.cc engines/huge.cc model/mtblfmt.cc $(ENGINE_SRC)
 
 FLAGS_asan := -O1 -g -fno-omit-frame-pointer -fsanitize=address,undefined -fno-sanitize=alignment -fno-sanitize-recover=undefined
 FLAGS_tsan := -O1 -g -fno-omit-frame-pointer -fsanitize=thread
